@@ -697,7 +697,7 @@ macro_rules! arch_adapter {
                         }
                         $( {
                             let s = w.$f.get_slice::<$C>();
-                            if s.len() != out.len() { out.push(Visit { arch_id: id, entity: ents[0], direct: None, coherent: false, cells: Vec::new() }); return out; }
+                            if s.len() != out.len() { out.push(Visit { arch_id: id, entity: ents.first().copied().unwrap_or_else(|| EntityAny::from_raw((0, 1)).unwrap()), direct: None, coherent: false, cells: Vec::new() }); return out; }
                             for (i, x) in s.iter().enumerate() { out[i].cells.push(read_cell(x)); out[i].coherent &= x.coherent(); }
                         } )*
                     }
@@ -709,7 +709,7 @@ macro_rules! arch_adapter {
                         let a = w.archetype::<$A>();
                         $( {
                             let s = a.borrow_slice::<$C>();
-                            if s.len() != out.len() { out.push(Visit { arch_id: id, entity: ents[0], direct: None, coherent: false, cells: Vec::new() }); return out; }
+                            if s.len() != out.len() { out.push(Visit { arch_id: id, entity: ents.first().copied().unwrap_or_else(|| EntityAny::from_raw((0, 1)).unwrap()), direct: None, coherent: false, cells: Vec::new() }); return out; }
                             for (i, x) in s.iter().enumerate() { out[i].cells.push(read_cell(x)); out[i].coherent &= x.coherent(); }
                         } )*
                     }
